@@ -79,6 +79,10 @@ def reference(Psi, xi, yi):
     # compared at 1e-6 (integer-valued data produce exactly defective zero eigenvalues)
     if np.linalg.cond(W) > 1e5:
         return None
+    # the reduced matrix does not change when Psi is rescaled, so an absolute floor is meaningful: a spectrum that vanishes
+    # altogether (1e-16 against 1e-16) cannot be compared relatively
+    if np.linalg.norm(Mred, 2) < 1e-8:
+        return None
     K = (U / s) @ Vh @ Py.T
     return lam, K, k
 
@@ -140,7 +144,7 @@ def body(c):
         lab.add('user_defined_function')
     for j, ((lam, K, k), ev, et) in enumerate(zip(refs, evs, ets)):
         ev = np.asarray(ev)
-        lmax = max(np.max(np.abs(lam)), 1e-300)
+        lmax = max(np.max(np.abs(lam)), 1e-8)
         require(ev.ndim == 1 and ev.shape[0] == k and np.all(np.isreal(ev)), 'eigenvalue_count', 'pair %d: got %s eigenvalues, expected %d real numbers' % (j, ev.shape, k))
         require(match_multisets(list(ev), list(np.real(lam)), 1e-6 * lmax), 'eigenvalues',
                 'pair %d: AMUSEt %s vs matrix EDMD %s' % (j, np.sort(ev), np.sort(np.real(lam))))
